@@ -74,7 +74,29 @@ func build(grammar, src string, withMap bool) (*xpath.Machine, error) {
 func genCompile(t *rapid.T) CompileCase {
 	g := []string{"expr", "path_eval", "leafref", "expr_custom", "path_eval_custom"}[rapid.IntRange(0, 4).Draw(t, "grammar")]
 	var in []byte
-	switch rapid.IntRange(0, 3).Draw(t, "kind") {
+	switch rapid.IntRange(0, 4).Draw(t, "kind") {
+	case 4:
+		// a long expression (generated models write conditions of many kilobytes): a valid one repeated with "or" up to
+		// a length around a power of two, as it is or with a fragment at one end
+		unit := c03.Source(c03.Gen(t))
+		if unit == "" {
+			unit = "a"
+		}
+		target := []int{1000, 4090, 8185, 8200, 16400, 40000}[rapid.IntRange(0, 5).Draw(t, "longlen")]
+		var b strings.Builder
+		b.WriteString(unit)
+		for b.Len() < target {
+			b.WriteString(" or ")
+			b.WriteString(unit)
+		}
+		s := b.String()
+		switch rapid.IntRange(0, 2).Draw(t, "longedit") {
+		case 1:
+			s += fragments[rapid.IntRange(0, len(fragments)-1).Draw(t, "longfrag")]
+		case 2:
+			s = fragments[rapid.IntRange(0, len(fragments)-1).Draw(t, "longfrag")] + s
+		}
+		in = []byte(s)
 	case 0:
 		in = rapid.SliceOfN(rapid.Byte(), 0, 24).Draw(t, "raw")
 	case 1:
@@ -105,6 +127,20 @@ var recent []string
 
 // markerOK: the text contains the expression with " [X] " inserted at some position.
 func markerOK(text, src string) bool {
+	if len(src) > 400 {
+		// (long input: take each marker out of the text in turn and look for the expression)
+		for from := 0; ; {
+			i := strings.Index(text[from:], " [X] ")
+			if i < 0 {
+				return false
+			}
+			i += from
+			if strings.Contains(text[:i]+text[i+5:], src) {
+				return true
+			}
+			from = i + 1
+		}
+	}
 	for i := 0; i <= len(src); i++ {
 		if strings.Contains(text, src[:i]+" [X] "+src[i:]) {
 			return true
